@@ -98,7 +98,10 @@ def run(ctx):
             if si["kind"] == "bool":
                 for a in si["atoms"]:
                     if a.kind == "bin" and a.what == "Ge" and doomed(br, si["true"]):
-                        shift_lim = br.const_value(a.extra["b"])
+                        v = br.const_value(a.extra["b"])
+                        from_byte = any(x.kind == "call" and x.what.endswith("::read_byte") for x in br.origins(a.extra["a"]))
+                        if v is not None and not from_byte and v % 7 == 0:      # `shift >= 28`, not `byte >= 0x80`
+                            shift_lim = v
         for i in range(br.n):
             for s in br.stmts(i):
                 if s["k"] == "=" and s["rv"]["k"] == "bin" and s["rv"]["op"].startswith("Add") and s["rv"]["b"][0] == "k":
